@@ -98,7 +98,7 @@ def run(ctx):
         for e in p.events:
             if e["k"] != "call":
                 continue
-            if e["callee"].endswith("::get_rule"):
+            if S.is_fetch(e["callee"]):
                 cur_rule = e
             elif e["callee"].endswith("Unifiable::unify"):
                 n_u += 1
@@ -215,7 +215,7 @@ def run(ctx):
     for p in eps:
         cnt = None
         for e in p.events:
-            if e["k"] == "call" and e["callee"].endswith("::get_rule"):
+            if e["k"] == "call" and S.is_fetch(e["callee"]):
                 if cnt is not None and cnt != 1:
                     ok3, why3 = False, "rule_index is incremented %d times between two clause fetches" % cnt
                 cnt = 0
@@ -229,7 +229,7 @@ def run(ctx):
         if cnt is not None and cnt != 1:
             ok3, why3 = False, "rule_index is incremented %d times after the last clause fetch of a path" % cnt
     ctx.ob("R3", "one-increment-per-fetch", ok3 and n3 > 0, ctx.where(E), why3 or "exactly one `+= 1` after each of %d fetch events" % n3)
-    GR = prog.one("knowledge_base::get_rule")
+    GR = next((b for b in prog.lib_bodies() if b.path in S.fetchers and b.mir["arg_count"] == 3), None)
     CR = prog.one("knowledge_base::count_rules")
     AR = prog.one("knowledge_base::add_rules")
     if GR is None or CR is None or AR is None:
@@ -374,7 +374,7 @@ def run(ctx):
     ok, why, n = True, "", 0
     for p in eps:
         cv = [v for c, v, bb in p.decisions if c == ("variant", ("field", sn, "child"))]
-        rc = [e for e in real_calls(p) if e["callee"] in solver_fns or e["callee"].endswith("::get_rule")]
+        rc = [e for e in real_calls(p) if e["callee"] in solver_fns or S.is_fetch(e["callee"])]
         if cv and cv[0] == "Some":
             n += 1
             if not rc or rc[0]["callee"] != E.path or strip(rc[0]["args"][0]) != child:
